@@ -2031,3 +2031,132 @@ Proof.
   change (fns (main_state B raw)) with (fn_table B raw) in Hs. rewrite Hs. cbn [obind].
   rewrite (validate_close _ Q); [reflexivity|]. eapply scs_of_frames; [exact F3|discriminate].
 Qed.
+
+(* ================================================================ *)
+(** * (i) each statement ends at the end of a line                   *)
+
+(* the cursor after the statement is advancePastNL of a cursor that stood on NL, a comment or EOF *)
+Definition ends_line (s' : pst) : Prop := exists c1, is_at_eol c1 = true /\ cs s' = apnl_loop (S (here c1)) c1.
+
+Lemma ends_apnl s1 : serrs (apnl (assert_eol s1)) = [] -> ends_line (apnl (assert_eol s1)).
+Proof.
+  intro Q. autorewrite with serrs in Q. destruct (assert_eol_ne _ Q) as [E L]. rewrite E. exists (cs s1). split; [exact L|reflexivity].
+Qed.
+Lemma ends_finish_end s : serrs (finish_end s) = [] -> ends_line (finish_end s).
+Proof. unfold finish_end. apply ends_apnl. Qed.
+Lemma ends_cs s s' : cs s' = cs s -> ends_line s -> ends_line s'.
+Proof. intros E (c1 & L & C). exists c1. split; [exact L|congruence]. Qed.
+
+Section Lines.
+Variable B : benv.
+Variable ps : pst -> PR (option stmt).
+
+Lemma statement_body_ends fuel s st s' : parse_statement_body B ps fuel s = Ok (Some st) s' -> serrs s' = [] ->
+  st = SEmpty \/ ends_line s'.
+Proof.
+  unfold parse_statement_body. intros H Q.
+  assert (EMP : parse_empty_stmt s = Ok (Some st) s' -> st = SEmpty \/ ends_line s').
+  { unfold parse_empty_stmt. intro H1. destruct (ct s); try discriminate H1; injection H1 as <- _; left; reflexivity. }
+  assert (TD : parse_typed_decl_stmt B s = Ok (Some st) s' -> st = SEmpty \/ ends_line s').
+  { unfold parse_typed_decl_stmt. intro H1. right.
+    destruct (parse_typed_decl B s) as [[[name dpos] t] s1| |] eqn:P; try discriminate H1.
+    apply Ok_inj in H1 as [E1 E2]; subst.
+    destruct t as [ty|].
+    - destruct (validate_var_decl B name dpos false s1) as [ok s2] eqn:V. destruct ok; [apply ends_apnl; exact Q|].
+      autorewrite with serrs in Q. destruct (serrs_validate_var_decl _ _ _ _ _ _ _ V Q) as [E _]. discriminate E.
+    - exfalso. autorewrite with serrs in Q. unfold parse_typed_decl in P.
+      destruct (p_type B _) as [t s2| |]; try discriminate P. destruct t; apply Ok_inj in P as [E3 E4]; [discriminate E3|].
+      subst. discriminate Q. }
+  assert (ID : parse_inferred_decl_stmt B s = Ok (Some st) s' -> st = SEmpty \/ ends_line s').
+  { unfold parse_inferred_decl_stmt. intro H1. right. cbv zeta in H1.
+    destruct (p_toplevel B _) as [v s2| |]; try discriminate H1.
+    destruct v as [t|]; [|discriminate H1]. destruct (tyerr_s B _ _ _); [discriminate H1|].
+    destruct (validate_var_decl B _ _ false s2) as [ok s3]. destruct ok; [|discriminate H1].
+    apply Ok_inj in H1 as [E1 E2]; subst. apply ends_apnl; exact Q. }
+  assert (AS : parse_assign_stmt B s = Ok (Some st) s' -> st = SEmpty \/ ends_line s').
+  { unfold parse_assign_stmt. intro H1. right.
+    destruct (is_func _ s); [discriminate H1|].
+    destruct (parse_assign_target B s) as [tg s1| |]; try discriminate H1.
+    destruct tg as [target|]; [|discriminate H1].
+    destruct (p_toplevel B _) as [v s3| |]; try discriminate H1.
+    destruct v as [value|]; [|discriminate H1]. cbv zeta in H1.
+    apply Ok_inj in H1 as [E1 E2]; subst. apply ends_apnl; exact Q. }
+  assert (CA : parse_call_stmt B s = Ok (Some st) s' -> st = SEmpty \/ ends_line s').
+  { unfold parse_call_stmt. intro H1. right.
+    destruct (lookup_fn _ _); [|discriminate H1]. destruct (p_func_call B _ s) as [x s1| |]; try discriminate H1.
+    destruct x; [|discriminate H1]. apply Ok_inj in H1 as [E1 E2]; subst. apply ends_apnl; exact Q. }
+  assert (CMP : forall s3 st0, Ok (Some st0) (pop_scope (finish_end s3)) = Ok (Some st) s' -> st = SEmpty \/ ends_line s').
+  { intros s3 st0 H1. right. apply Ok_inj in H1 as [E1 E2]; subst. autorewrite with serrs in Q.
+    apply (ends_cs (finish_end s3)); [reflexivity|apply ends_finish_end; exact Q]. }
+  destruct (ct s); try discriminate H; try exact (EMP H).
+  - destruct (ttype (peek (cs s))); try exact (AS H); try exact (TD H); try exact (ID H);
+      (destruct (is_func (tlit (cur (cs s))) s); [exact (CA H)|]); try exact (AS H); discriminate H.
+  - (* if *) unfold parse_if_stmt in H.
+    destruct (parse_if_cond_block B ps fuel s) as [cb s1| |]; try discriminate H.
+    destruct (else_if_loop B ps _ fuel [cb] s1) as [brs s2| |]; try discriminate H.
+    right. destruct (ct s2);
+      try (apply Ok_inj in H as [E1 E2]; subst; apply ends_finish_end; exact Q).
+    cbv zeta in H. destruct (parse_block_with ps fuel false _) as [b s4| |]; try discriminate H.
+    apply Ok_inj in H as [E1 E2]; subst; apply ends_finish_end; exact Q.
+  - (* return *) right. unfold parse_return_stmt in H. cbv zeta in H.
+    destruct (is_at_eol (cs (adv s))) eqn:EOL.
+    + apply Ok_inj in H as [E1 E2]; subst. autorewrite with serrs in Q.
+      destruct (negb (has_ret (adv s))); [discriminate Q|]. destruct (ret_value (adv s)); [discriminate Q|].
+      exists (cs (adv s)). split; [exact EOL|reflexivity].
+    + destruct (p_toplevel B (adv s)) as [x s2| |]; try discriminate H.
+      destruct x as [t|]; apply Ok_inj in H as [E1 E2]; subst; autorewrite with serrs in Q.
+      * destruct (negb (has_ret (assert_eol s2))); [discriminate Q|].
+        destruct (tyerr_s B TS_return_type t _); [discriminate Q|]. apply ends_apnl. autorewrite with serrs. exact Q.
+      * destruct (negb (has_ret s2)); discriminate Q.
+  - (* for *) unfold parse_for_stmt in H. cbv zeta in H.
+    match type of H with (match ?lv with _ => _ end) = _ => destruct lv as [[v|] s4] end; [|discriminate H].
+    destruct (passert T_RANGE s4) as [ok s5]. destruct ok; cbn [negb] in H; [|discriminate H].
+    destruct (p_expr_list B (adv s5)) as [ns s7| |]; try discriminate H.
+    destruct (match ns with Some l => l | None => [] end) as [|n more]; [discriminate H|].
+    destruct (_ && _); [discriminate H|].
+    destruct (parse_block_with ps fuel false _) as [b s10| |]; try discriminate H.
+    exact (CMP _ _ H).
+  - (* while *) unfold parse_while_stmt in H. cbv zeta in H.
+    destruct (parse_condition B _) as [c s2| |]; try discriminate H.
+    destruct (parse_block_with ps fuel false _) as [b s3| |]; try discriminate H.
+    exact (CMP _ _ H).
+  - (* break *) right. unfold parse_break_stmt in H. apply Ok_inj in H as [E1 E2]; subst. apply ends_apnl; exact Q.
+Qed.
+
+End Lines.
+
+Theorem stmt_ends_line B : forall fuel s st s', parse_statement B fuel s = Ok (Some st) s' -> serrs s' = [] ->
+  st = SEmpty \/ ends_line s'.
+Proof.
+  destruct fuel as [|f]; intros s st s' H Q; [discriminate|]. cbn [parse_statement] in H.
+  exact (statement_body_ends B _ _ _ _ _ H Q).
+Qed.
+
+Theorem func_ends_line B fuel s st s' : parse_func B fuel s = Ok (Some st) s' -> serrs s' = [] -> ends_line s'.
+Proof.
+  unfold parse_func. intros H Q. cbv zeta in H.
+  destruct (parse_block B fuel _) as [b s4| |]; try discriminate H.
+  destruct (negb _); [discriminate H|]. destruct (mem_str _ _); [discriminate H|].
+  apply Ok_inj in H as [E1 E2]; subst.
+  match type of Q with serrs (pop_scope {| cs := cs (finish_end ?x); scs := _; fns := _; bodies := _; hds := _ |}) = [] =>
+    apply (ends_cs (finish_end x)); [reflexivity|apply ends_finish_end; exact Q] end.
+Qed.
+
+Theorem on_ends_line B fuel s st s' : parse_event_handler B fuel s = Ok (Some st) s' -> serrs s' = [] -> ends_line s'.
+Proof.
+  unfold parse_event_handler. intros H Q. cbv zeta in H.
+  destruct (passert T_IDENT (adv s)) as [ok s2]. destruct ok; cbn [negb] in H; [|discriminate H].
+  destruct (on_params_loop B _ [] _) as [params s4| |]; try discriminate H.
+  destruct (parse_block B fuel _) as [b s7| |]; try discriminate H.
+  apply Ok_inj in H as [E1 E2]; subst. autorewrite with serrs in Q.
+  apply (ends_cs (finish_end s7)); [reflexivity|apply ends_finish_end; exact Q].
+Qed.
+
+(* the header of `while`, `if` and `else if`: the condition is followed by the end of the line *)
+Lemma condition_eol B s c s' : parse_condition B s = Ok (Some c) s' -> serrs s' = [] -> is_at_eol (cs s') = true.
+Proof.
+  unfold parse_condition. intros H Q.
+  destruct (p_toplevel B s) as [x s1| |]; try discriminate H. destruct x as [t|]; [|discriminate H].
+  apply Ok_inj in H as [E1 E2]; subst.
+  destruct (tyerr_s B _ _ _); [discriminate Q|]. destruct (assert_eol_ne _ Q) as [E L]. rewrite E. exact L.
+Qed.
